@@ -108,11 +108,30 @@ fn observe(cx: Cx, tok: &str) -> Result<Option<i64>, String> {
     Ok(Some(v))
 }
 
+/// width of the instruction field the literal lands in (None for directives and bare tokens)
+fn field_bits(cx: Cx) -> Option<u32> { match cx { Cx::Imm5 => Some(5), Cx::Off6 => Some(6), Cx::Pc9Ld | Cx::Pc9Br => Some(9), Cx::Pc11 => Some(11), Cx::Trap8 => Some(8), Cx::Mn(k) => Some(MNEMONICS[k as usize].1), _ => None } }
+/// "and then denotes that value": an accepted literal operand of an N-bit field must be what the assembled word's field holds, wherever the
+/// statement is placed (a literal PC offset is the offset itself, not an address)
+fn check_encoded(cx: Cx, tok: &str, v: i64, n: u32) -> Option<(String, String)> {
+    let stmt = match cx { Cx::Imm5 => format!("ADD R1, R2, {tok}"), Cx::Off6 => format!("LDR R1, R2, {tok}"), Cx::Pc9Ld => format!("LD R1, {tok}"), Cx::Pc9Br => format!("BRnz {tok}"), Cx::Pc11 => format!("JSR {tok}"), Cx::Trap8 => format!("TRAP {tok}"), Cx::Mn(k) => MNEMONICS[k as usize].0.replace("{}", tok), _ => return None };
+    let mask = ((1u32 << n) - 1) as u16;
+    for origin in [0x0000u16, 0x0001, 0x00FF, 0x0100, 0x3000, 0x7FFF, 0x8000, 0xFDFF] {
+        let src = format!(".orig x{origin:04X}\n{stmt}\n.end");
+        let r = catch(|| { let ast = parse_ast(&src).map_err(|e| format!("{e:?}"))?; let obj = lc3_ensemble::asm::assemble(ast).map_err(|e| format!("{:?}", e.kind))?; let first = obj.addr_iter().next(); Ok::<_, String>(first) });
+        match r {
+            Err(p) => return Some((format!("panic:{}", panic_site(&p)), format!("`{stmt}` at x{origin:04X}: {p}"))),
+            Ok(Err(e)) => return Some((format!("{cx:?}:accepted-but-does-not-assemble"), format!("`{stmt}` parses with the literal accepted as {v}, but does not assemble at x{origin:04X}: {e}"))),
+            Ok(Ok(Some((a, Some(w))))) if a == origin && w & mask == (v as u16) & mask => {}
+            Ok(Ok(got)) => return Some((format!("{cx:?}:field-holds-other-value"), format!("`{stmt}` at x{origin:04X}: the literal denotes {v}, the assembled word is {got:x?} whose {n}-bit field holds {}", got.and_then(|g| g.1).map(|w| (w & mask).to_string()).unwrap_or_default()))),
+        }
+    }
+    None
+}
 fn check_num(cx: Cx, form: Form, neg: bool, dec: &str, hexs: &str, mag: Option<u128>, zeros: usize) -> Option<(String, String)> {
     let tok = render(form, neg, dec, hexs, zeros);
     let exp = expected(cx, token_value(neg, mag));
     match catch(|| observe(cx, &tok)) {
-        Ok(Ok(got)) if got == exp => None,
+        Ok(Ok(got)) if got == exp => match (exp, field_bits(cx)) { (Some(v), Some(n)) => check_encoded(cx, &tok, v, n), _ => None },
         Ok(Ok(got)) => Some((format!("{cx:?}:{}", match (got, exp) { (Some(_), None) => "accepts-invalid", (None, Some(_)) => "rejects-valid", _ => "wrong-value" }),
                              format!("`{tok}` in context {cx:?}: observed {got:?}, expected {exp:?}"))),
         Ok(Err(e)) => Some((format!("{cx:?}:shape"), e)),
